@@ -243,6 +243,10 @@ class Engine(object):
         sym.NONNEG_HOOK[0] = self._entails_nonneg
         self.explore_budget_s = 300    # wall clock per contract: beyond it the function counts as outside the supported subset (undecided)
         self.axioms = []           # global axioms (about uninterpreted functions) added to every query
+        # wall clock for ALL explorations of one check: once it is used up every further contract gets 30 s (a changed tree that makes
+        # each of 28 lemmas expensive must end in a verdict, not in hours of exploration); unchanged tree: < 150 s in every check
+        self.explore_total_budget_s = 900
+        self.explore_total_s = 0.0
 
     # ------------------------------------------------------------------------------------------------- paths
     def explore(self, thunk, max_paths=4000, pc0=()):
@@ -250,10 +254,17 @@ class Engine(object):
         work = [[]]
         out = []
         t_start = time.time()
+        budget = min(self.explore_budget_s, max(30, self.explore_total_budget_s - self.explore_total_s))
+        try:
+            return self._explore(thunk, max_paths, pc0, work, out, t_start, budget)
+        finally:
+            self.explore_total_s += time.time() - t_start
+
+    def _explore(self, thunk, max_paths, pc0, work, out, t_start, budget):
         while work:
-            if time.time() - t_start > self.explore_budget_s:
+            if time.time() - t_start > budget:
                 raise Unsupported("path exploration exceeded its budget of %d s (%d paths kept, %d infeasible dropped so far)"
-                                  % (self.explore_budget_s, len(out), self.stats["infeasible_dropped"]))
+                                  % (budget, len(out), self.stats["infeasible_dropped"]))
             prefix = work.pop()
             self.path = Path(prefix)
             sym._counter[0] = 0
@@ -584,6 +595,7 @@ class Engine(object):
                     env[ko.arg] = self.eval(kd, env)
             if a.kwarg:
                 env[a.kwarg.arg] = self.models.from_native(dict(extra))
+                env[a.kwarg.arg].origin = "code"
             elif extra:
                 raise PyRaise(ExcVal(TypeError, ("unexpected keyword argument",)))
             if isinstance(node, ast.Lambda):
@@ -921,7 +933,13 @@ class Engine(object):
         if isinstance(v, (list, dict)):
             return self.models.from_native(copy.deepcopy(v))   # module-level tables are program constants
         if isinstance(v, set):
-            return copy.deepcopy(v)
+            from .models import ListSet
+            try:
+                g = ListSet(sorted(v, key=repr))
+            except Exception:
+                return copy.deepcopy(v)
+            g.origin = "const"          # a module-level set: writes to it are state shared by every caller in the process
+            return g
         return v
 
     def e_Attribute(self, e, env):
